@@ -72,6 +72,10 @@ pub use self::runtime::*;
     ),
 ))]
 mod sse42_compile_time {
+    #[cfg(httparse_verif)]
+    #[allow(missing_docs)]
+    pub const VERIF_PROVIDER: &str = "sse42";
+
     #[inline(always)]
     pub fn match_header_name_vectored(b: &mut crate::iter::Bytes<'_>) {
         super::swar::match_header_name_vectored(b);
@@ -110,6 +114,10 @@ pub use self::sse42_compile_time::*;
     ),
 ))]
 mod avx2_compile_time {
+    #[cfg(httparse_verif)]
+    #[allow(missing_docs)]
+    pub const VERIF_PROVIDER: &str = "avx2";
+
     #[inline(always)]
     pub fn match_header_name_vectored(b: &mut crate::iter::Bytes<'_>) {
         super::swar::match_header_name_vectored(b);
@@ -151,3 +159,81 @@ mod neon;
     httparse_simd_neon_intrinsics,
 ))]
 pub use self::neon::*;
+
+/// Verification hooks: direct access to every compiled-in scanner backend.
+#[cfg(httparse_verif)]
+#[allow(missing_docs, unused_variables, unreachable_code, clippy::undocumented_unsafe_blocks)]
+pub mod verif_scan {
+    use crate::iter::Bytes;
+
+    /// Name of the module the three scanner entry points resolve to.
+    pub fn provider() -> &'static str {
+        super::VERIF_PROVIDER
+    }
+
+    /// Cached runtime backend id (0 = not yet detected); `None` if this build
+    /// has no runtime dispatch.
+    pub fn runtime_feature(set: Option<u8>) -> Option<u8> {
+        #[cfg(all(
+            httparse_simd,
+            not(any(httparse_simd_target_feature_sse42, httparse_simd_target_feature_avx2)),
+            any(target_arch = "x86", target_arch = "x86_64"),
+        ))]
+        return Some(super::verif_runtime_feature(set));
+        None
+    }
+
+    /// Run one scanner on `buf`; returns the stop offset, or `None` if that
+    /// backend is not compiled in or the CPU lacks it.
+    /// backend: 0 = selected provider, 1 = swar, 2 = sse4.2, 3 = avx2.
+    /// class: 0 = uri, 1 = header value, 2 = header name.
+    pub fn scan(backend: u8, class: u8, buf: &[u8]) -> Option<usize> {
+        let mut bytes = Bytes::new(buf);
+        match (backend, class) {
+            (0, 0) => super::match_uri_vectored(&mut bytes),
+            (0, 1) => super::match_header_value_vectored(&mut bytes),
+            (0, 2) => super::match_header_name_vectored(&mut bytes),
+            (1, 0) => super::swar::match_uri_vectored(&mut bytes),
+            (1, 1) => super::swar::match_header_value_vectored(&mut bytes),
+            (1, 2) => super::swar::match_header_name_vectored(&mut bytes),
+            #[cfg(all(
+                feature = "std",
+                httparse_simd,
+                not(httparse_simd_target_feature_avx2),
+                any(target_arch = "x86", target_arch = "x86_64"),
+            ))]
+            (2, 0) | (2, 1) => {
+                if !is_x86_feature_detected!("sse4.2") {
+                    return None;
+                }
+                unsafe {
+                    if class == 0 {
+                        super::sse42::match_uri_vectored(&mut bytes)
+                    } else {
+                        super::sse42::match_header_value_vectored(&mut bytes)
+                    }
+                }
+            }
+            #[cfg(all(
+                feature = "std",
+                httparse_simd,
+                any(httparse_simd_target_feature_avx2, not(httparse_simd_target_feature_sse42)),
+                any(target_arch = "x86", target_arch = "x86_64"),
+            ))]
+            (3, 0) | (3, 1) => {
+                if !is_x86_feature_detected!("avx2") {
+                    return None;
+                }
+                unsafe {
+                    if class == 0 {
+                        super::avx2::match_uri_vectored(&mut bytes)
+                    } else {
+                        super::avx2::match_header_value_vectored(&mut bytes)
+                    }
+                }
+            }
+            _ => return None,
+        }
+        Some(bytes.pos())
+    }
+}
